@@ -270,6 +270,67 @@ fn main() {
             }
         }
     }
+    // ---- C03: several rulesets and combined rulesets whose members are also run on their own, so
+    //      that the rules of one batch have DIFFERENT last-run timestamps; top-level writes in
+    //      between. Semi-naive and naive engines in lockstep (each rule keeps its own timestamp).
+    if prop == "C03" && o.replay.is_none() {
+        let nprog = if o.thorough { 400 } else { 40 };
+        for pi in 0..nprog {
+            raw_cases += 1;
+            let mut r = Rng::for_case(o.seed ^ 0xC03B, pi as u64);
+            let setup = "(relation edge (i64 i64))\n(relation path (i64 i64))\n(relation source (i64))\n(relation sink (i64))\n(ruleset ra)\n(ruleset rb)\n(ruleset rc)\n(rule ((edge x y)) ((path x y)) :ruleset ra)\n(rule ((edge x y)) ((source x)) :ruleset rb)\n(rule ((path x y) (edge y z)) ((path x z)) :ruleset rc)\n(rule ((edge x y)) ((sink y)) :ruleset rc)\n".to_string();
+            let orders = [["ra", "rb"], ["rb", "ra"], ["ra", "rc"], ["rc", "rb"]];
+            let o1 = orders[r.below(4)];
+            let o2 = orders[r.below(4)];
+            let setup = format!("{setup}(unstable-combined-ruleset c1 {} {})\n(unstable-combined-ruleset c2 {} {})\n(unstable-combined-ruleset all c1 rc)\n", o1[0], o1[1], o2[0], o2[1]);
+            let mut a = egglog::EGraph::default();
+            let mut b = egglog::EGraph::default();
+            b.seminaive = false;
+            let (ra, _) = step(&mut a, &setup);
+            let (rb, _) = step(&mut b, &setup);
+            if ra.is_err() || rb.is_err() {
+                viols.push(Viol { what: format!("harness: ruleset setup rejected: {:?}", ra.err().or(rb.err())), key: "harness-header".into(), program: setup.clone(), at: 0 });
+                continue;
+            }
+            let mut done = String::new();
+            let ncmd = r.range(6, 16);
+            let mut next_node = 1i64;
+            for k in 0..ncmd {
+                let st = match r.below(10) {
+                    0..=3 => {
+                        next_node += 1;
+                        format!("(edge {} {})", r.below(next_node as usize), next_node)
+                    }
+                    4 => format!("(run {} 1)", ["ra", "rb", "rc"][r.below(3)]),
+                    5 => format!("(run {} {})", ["ra", "rb", "rc"][r.below(3)], r.range(1, 2)),
+                    6 => "(run c1 1)".to_string(),
+                    7 => "(run c2 1)".to_string(),
+                    8 => "(run all 1)".to_string(),
+                    _ => format!("(run-schedule (seq (run {}) (run {})))", ["ra", "rb", "rc", "c1"][r.below(4)], ["c2", "rb", "all"][r.below(3)]),
+                };
+                let (ra, pa) = step(&mut a, &st);
+                let (rb, pb) = step(&mut b, &st);
+                done.push_str(&st);
+                done.push('\n');
+                let mut diff: Option<String> = None;
+                if ra.is_ok() != rb.is_ok() || pa || pb {
+                    diff = Some("command outcome differs".to_string());
+                } else {
+                    let fmt = |r: Result<Vec<egglog::CommandOutput>, String>| r.map(|o| o.iter().map(|x| x.to_string()).collect::<String>()).unwrap_or_else(|e| e);
+                    let (sa, _) = step(&mut a, "(print-size)");
+                    let (sb, _) = step(&mut b, "(print-size)");
+                    let (sa, sb) = (fmt(sa), fmt(sb));
+                    if sa != sb {
+                        diff = Some(format!("table sizes differ: semi-naive {sa:?} naive {sb:?}"));
+                    }
+                }
+                if let Some(dm) = diff {
+                    viols.push(Viol { what: format!("rulesets with different run histories, after `{st}`: {dm}"), key: "C03-semi-vs-naive".into(), program: format!("{setup}{done}"), at: k });
+                    break;
+                }
+            }
+        }
+    }
     // ---- C01: big tables (> 10k rows, so the incremental rebuild / index-driven paths run) with a
     //      FEW unions whose consequences are known analytically; rows with a value repeated in two
     //      columns, displaced output ids, parents of displaced rows. Known-answer checks.
